@@ -141,6 +141,8 @@ class Ref:
         o = merge(merge(dopts, o), opts)
         body = None if d.get("abstract") else ("call", d["fid"], d.get("kwargs", []))
         if d.get("dispatch") is None:
+            if body is None:
+                raise Fail("switch")         # no dispatch, no default implementation: no branch applies
             v = self.ev(body, o)
         else:   # an overloaded dataset is a switch over its registered implementations
             v = self.ev(("switch", d["dispatch"], d.get("overloads", []), body), o)
@@ -309,23 +311,188 @@ class Builder(core.Builder):
         return super().build(e)
 
 
+
+# ---- the same trees through the OTHER public spellings of each combinator.  The property speaks about
+# "every expression built from" the combinators: which spelling of the public builder API produced the
+# expression (and in which order its parts were chained / registered) is not part of the statement.
+ALT_KINDS = {1: ("case", "switch", "coalesce", "pipe", "with", "dataset"), 2: ("case", "switch", "pipe", "dataset"),
+             3: ("case", "switch", "dataset")}
+SPELLINGS = {
+    1: "case(d).otherwise(x).when(c, r)... (the default first; the shared base is evaluated too); Switch(...); coalesce(); e >> f; "
+       "p += step; WithDefaultOptions(); dataset defined without dispatch, then set_dispatch(), then register()",
+    2: "case(d).when(c1, r1).otherwise(x).when(c2, r2)... (the default in the middle); Overloaded(dispatch, lookup, default); "
+       "s1 + (s2 + s3); dataset: register() first, set_dispatch() afterwards",
+    3: "CaseWhen(dispatch, cases, default); Overloaded(dispatch, {}, default) + register() per branch; dataset: overload() decorator "
+       "with a list of aliases after set_dispatch()",
+}
+
+
+class AltBuilder(Builder):
+    def __init__(self, world, env, spell):
+        super().__init__(world, env)
+        self.spell = spell
+        self.bases = []          # (tree, object) of shared bases that were extended later: they stay what they were
+
+    def dataset(self, dsid):
+        if dsid in self.ds:
+            return self.ds[dsid]
+        d = self.env[dsid]
+        if d.get("derived") is not None or d.get("dispatch") is None:
+            return super().dataset(dsid)
+        # defined WITHOUT a dispatch; the dispatch and the implementations are supplied afterwards
+        bare = dict(d, dispatch=None, overloads=[])
+        self.env = dict(self.env)
+        self.env[dsid] = bare
+        try:
+            obj = super().dataset(dsid)
+        finally:
+            self.env[dsid] = d
+        disp = self.build(d["dispatch"])
+        regs = [(core.py_value(a), self.build(x)) for a, x in d.get("overloads", [])]
+        if self.spell == 2:
+            for a, x in regs:
+                obj.register(a, x)
+            obj.set_dispatch(disp)
+        elif self.spell == 3:
+            from labrea.dataset import Dataset
+            obj.set_dispatch(disp)
+            i = 0
+            while i < len(regs):     # consecutive registrations of one implementation: one overload([aliases])
+                j = i + 1
+                while j < len(regs) and regs[j][1] is regs[i][1]:
+                    j += 1
+                x = regs[i][1]
+                if isinstance(x, Dataset):
+                    obj.overload([a for a, _ in regs[i:j]] if j - i > 1 else regs[i][0])(x)
+                else:
+                    for a, _ in regs[i:j]:
+                        obj.register(a, x)
+                i = j
+        else:
+            obj.set_dispatch(disp)
+            for a, x in regs:
+                obj.register(a, x)
+        return obj
+
+    def build(self, e):
+        L, s, k = self.L, self.spell, e[0]
+        if k == "case":
+            from labrea._missing import MISSING
+            from labrea.conditional import CaseWhen
+            d = self.build(e[1])
+            cases = [(self.build(c), self.build(r)) for c, r in e[2]]
+            dflt = self.build(e[3]) if e[3] is not None else None
+            if s == 3:
+                return CaseWhen(d, cases, MISSING if dflt is None else dflt)
+            c = L.case(d)
+            if s == 1 or not cases:
+                if dflt is not None:
+                    c = c.otherwise(dflt)
+                    if cases:
+                        self.bases.append((("case", e[1], [], e[3]), c))
+                for i, (cond, r) in enumerate(cases):
+                    c = c.when(cond, r)
+                    if i + 1 < len(cases):
+                        self.bases.append((("case", e[1], e[2][:i + 1], e[3]), c))
+                return c
+            for i, (cond, r) in enumerate(cases):
+                c = c.when(cond, r)
+                if i == 0 and dflt is not None:
+                    c = c.otherwise(dflt)
+            return c
+        if k == "switch":
+            from labrea._missing import MISSING
+            from labrea.overload import Overloaded
+            d = self.build(e[1])
+            pairs = [(core.py_value(v), self.build(x)) for v, x in e[2]]
+            dflt = self.build(e[3]) if e[3] is not None else MISSING
+            if s == 1:
+                return L.Switch(d, dict(pairs), dflt)
+            if s == 2:
+                return Overloaded(d, dict(pairs), dflt)
+            ov = Overloaded(d, {}, dflt)
+            for a, x in pairs:
+                ov.register(a, x)
+            return ov
+        if k == "coalesce" and s == 1:
+            return L.coalesce(*[self.build(x) for x in e[1]])
+        if k == "apply" and s == 1:
+            return self.build(e[1]) >> self.build(e[2])
+        if k == "tolist" and s == 1:
+            return self.build(e[1]) >> list
+        if k == "with" and s == 1 and not e[1]:
+            return L.WithDefaultOptions(self.build(e[3]), core.py_json(e[2]))
+        if k == "pipe" and s in (1, 2):
+            from labrea.pipeline import Pipeline
+            steps = [self.build(x) for x in e[1]]
+            if s == 1:
+                p = Pipeline()
+                for st in steps:
+                    p += st
+                return p
+            p = Pipeline()
+            for st in reversed(steps):
+                p = (Pipeline() + st) + p
+            return p
+        return super().build(e)
+
+
+def alt_applies(scn, e, spell):
+    kinds = ALT_KINDS[spell]
+    def ds_has_dispatch(n):
+        d = scn["env"].get(n[1], {})
+        while d.get("derived") is not None:
+            d = scn["env"][d["derived"]]
+        return d.get("dispatch") is not None
+    for n in list(nodes(e)) + list(env_nodes(scn)):
+        if n[0] in kinds and (n[0] != "dataset" or ds_has_dispatch(n)):
+            return True
+    return False
+
+
+def alt_case(scn, idx, o, spell, stats=None, model_agrees=True):
+    """the oracle on the tree built through spelling `spell`, and on the shared bases it extended"""
+    v = oracle_case(scn, idx, o, stats, model_agrees, spell=spell)
+    if v is not None:
+        return dict(v, desc=v["desc"] + f" [the tree built through another public spelling: {SPELLINGS[spell]}]")
+    _, b = built(scn, scn["exprs"][idx], spell)
+    for be, bobj in getattr(b, "bases", [])[:3]:
+        one = dict(scn, exprs=[be])
+        v = oracle_case(one, 0, o, stats, model_agrees, got=outcome_of(lambda: bobj.evaluate(core.py_json(o))), spell=spell)
+        if v is not None:
+            return dict(v, base=repr(be), expr=repr(scn["exprs"][idx]),
+                        scenario_repr=cp.dump_scn(dict(scn, exprs=[scn["exprs"][idx]], ops=[("evaluate", 0, False, False, o)])),
+                        desc=v["desc"] + " [a case-when statement that was extended with .when() afterwards: the shared base itself "
+                        "must stay what it was]")
+    return None
+
 _BUILT = {}
 
 
-def impl_outcome(scn, e, o):
+def built(scn, e, spell=0):
+    """(object, builder) of expression e, built once per (scenario, expression, spelling)"""
     # the graph holds no cache and the user functions no state: one built object serves every dictionary
-    key = (id(scn["ftable"]), id(scn["env"]), id(e))
+    key = (id(scn["ftable"]), id(scn["env"]), id(e), spell)
     if key not in _BUILT:
         if len(_BUILT) > 20000:
             _BUILT.clear()
-        _BUILT[key] = (Builder(core.World(scn["ftable"]), scn["env"]).build(e), scn["ftable"], scn["env"], e)
-    obj = _BUILT[key][0]
+        b = Builder(core.World(scn["ftable"]), scn["env"]) if spell == 0 else AltBuilder(core.World(scn["ftable"]), scn["env"], spell)
+        _BUILT[key] = (b.build(e), scn["ftable"], scn["env"], e, b)
+    return _BUILT[key][0], _BUILT[key][4]
+
+
+def outcome_of(thunk):
     try:
-        return ("ok", canon(core.force(obj.evaluate(core.py_json(o)))))
+        return ("ok", canon(core.force(thunk())))
     except RecursionError:
         return ("fail", "fuel")
     except Exception as exc:  # noqa
         return ("fail", core.classify(exc)[0])
+
+
+def impl_outcome(scn, e, o, spell=0):
+    obj = built(scn, e, spell)[0]
+    return outcome_of(lambda: obj.evaluate(core.py_json(o)))
 
 
 # ---- where the eager reading applies
@@ -416,13 +583,24 @@ def cause_comparable(scn, e):
     return not any(n[0] == "coalesce" for n in allnodes) and not late_lazy(e) and not map_late_iterable(e)
 
 
-def oracle_case(scn, idx, o, stats=None, model_agrees=True):
-    """None, or a violation dict for (expression idx, options o)"""
+_LAST_WANT = [None, None, [], None]
+
+
+def oracle_case(scn, idx, o, stats=None, model_agrees=True, got=None, spell=0):
+    """None, or a violation dict for (expression idx, options o); `got`: the implementation's outcome when
+    it was obtained elsewhere (an object with a history); `spell`: which public spelling builds the tree"""
     e = scn["exprs"][idx]
-    zone = []
-    try:
-        want = ref_outcome(scn, e, o, zone)
-    except OutOfProfile as x:
+    key = (id(scn), id(e), id(o))
+    if _LAST_WANT[0] == key:      # the same case judged again for another spelling: the eager computation is the same
+        want, zone = _LAST_WANT[1], list(_LAST_WANT[2])
+    else:
+        zone = []
+        try:
+            want = ref_outcome(scn, e, o, zone)
+        except OutOfProfile as x:
+            want = None
+        _LAST_WANT[:] = [key, want, list(zone), (scn, e, o)]
+    if want is None:
         if stats is not None:
             stats["out_of_profile"] = stats.get("out_of_profile", 0) + 1
         return None
@@ -430,7 +608,7 @@ def oracle_case(scn, idx, o, stats=None, model_agrees=True):
         if stats is not None:
             stats["lazy_member_skipped"] = stats.get("lazy_member_skipped", 0) + 1
         return None
-    got = impl_outcome(scn, e, o)
+    got = impl_outcome(scn, e, o, spell) if got is None else got
     if stats is not None:
         stats["checked"] = stats.get("checked", 0) + 1
         stats[want[0]] = stats.get(want[0], 0) + 1
@@ -454,7 +632,7 @@ def oracle_case(scn, idx, o, stats=None, model_agrees=True):
         if stats is not None:
             stats["tagged_D23"] = stats.get("tagged_D23", 0) + 1
     return dict(desc=f"evaluate: {bad}", expr=repr(e), options=repr(o), labrea=repr(got), eager=repr(want),
-                expr_index=idx, finding=finding,
+                expr_index=idx, finding=finding, spelling=spell,
                 scenario_repr=cp.dump_scn(dict(scn, exprs=[e], ops=[("evaluate", 0, False, False, o)])))
 
 
@@ -872,6 +1050,150 @@ def lazy_scn(ctx):
 
 
 # =============================================================================================
+# datasets with a HISTORY: the public mutators (set_dispatch, register, overload, set_cache,
+# add_effects / add_effect, disable_effects, enable_effects) and derivations (with_options,
+# with_default_options) applied AFTER the dataset - and the expressions that refer to it - were
+# evaluated (or validated / asked for keys / explained).  The eager computation an evaluation
+# "corresponds to" is the one of the definition as it stands AT THAT EVALUATION: the reference
+# follows the registration history.
+# =============================================================================================
+H_DICTS = [{}, {A: 1}, {A: 5, B: 1}, {A: 2, B: 2}, {A: 3, B: lit("a"), C: 1}, {B: 1}, {A: 1, B: lit("b"), C: 2},
+           {A: 4, C: lit("a")}, {A: 6, B: 2, C: 1}]
+H_ALIASES = [1, 2, lit("a"), lit("b")]
+
+
+def gen_history(rng):
+    d1 = dict(fid=F_DS1, kwargs=[opt(K(A), val(0)) if rng.random() < 0.5 else opt(K(A))], cache="none")
+    if rng.random() < 0.3:
+        d1["abstract"] = True
+    if rng.random() < 0.25:
+        d1["dispatch"] = opt(K(B))
+        if rng.random() < 0.5:
+            d1["overloads"] = [(("j", 1), val(lit("o")))]
+    if rng.random() < 0.2:
+        d1["callback"] = ("pstep", F_TAG, [])
+    if rng.random() < 0.2:
+        d1["options"] = {C: 1}
+    env = {1: d1,
+           2: dict(fid=F_DS2, kwargs=[("dataset", 1)], cache="none"),            # a dataset that takes it as an argument
+           3: dict(fid=F_DS2, kwargs=[opt(K(A), val(7))], cache="none")}
+    exprs = [("dataset", 1),
+             ("switch", opt(K(C), val(1)), [(("j", 1), ("dataset", 1))], val(0)),
+             ("dataset", 2),
+             ("coalesce", [("dataset", 1), val(lit("n"))]),
+             ("tolist", ("map", ("dataset", 1), [(K(B), val([1, 2]))]))]
+    steps = []
+    has_dispatch = d1.get("dispatch") is not None
+
+    def evals(k):
+        for _ in range(k):
+            steps.append(("eval", rng.randrange(len(exprs)), rng.choice(H_DICTS)))
+    # the first use, before any mutator
+    first = rng.choice(["evaluate", "evaluate", "validate", "keys", "explain"])
+    if first == "evaluate":
+        evals(rng.randint(1, 2))
+    else:
+        steps.append(("touch", first, rng.randrange(len(exprs)), rng.choice(H_DICTS)))
+    for _ in range(rng.randint(2, 5)):
+        r = rng.random()
+        if r < 0.3:
+            steps.append(("set_dispatch", rng.choice([opt(K(B)), opt(K(B), val(1)), opt(K(C)), ("coalesce", [opt(K(B)), val(2)])])))
+            has_dispatch = True
+        elif r < 0.6 or (r < 0.75 and not has_dispatch):
+            impl = rng.choice([val(lit("o")), ("call", F_TAG, [opt(K(A))]), opt(K(A), val(0)), ("dataset", 3),
+                               ("switch", opt(K(A)), [(("j", 1), val(lit("one")))], val(lit("other")))])
+            steps.append(("register", rng.choice(H_ALIASES), impl))
+        elif r < 0.75:
+            n = 10 + len(steps)
+            env[n] = dict(fid=F_DS2, kwargs=[opt(K(A), val(n))], cache="none")
+            steps.append(("overload", rng.sample(H_ALIASES, rng.choice([1, 1, 2])), n))
+        elif r < 0.85:
+            steps.append((rng.choice(["set_cache", "add_effects", "add_effect", "disable_effects", "enable_effects"]),))
+        else:
+            p = {rng.choice([A, B, C]): rng.choice([1, 2, lit("a")])}
+            steps.append(("derive", rng.choice(["with_options", "with_default_options"]), p, rng.choice(H_DICTS)))
+        if rng.random() < 0.7:
+            evals(rng.randint(1, 2))
+    for o in rng.sample(H_DICTS, 4):
+        steps.append(("eval", 0, o))
+        steps.append(("eval", rng.randrange(1, len(exprs)), o))
+    return dict(ftable=E_FT, env=env, exprs=exprs, steps=steps)
+
+
+def run_history(h):
+    """apply the steps to ONE long-lived object graph; per evaluation: (step index, the definition as it stands
+    (a scenario), the implementation's outcome, its result line)"""
+    import copy
+    from labrea.cache import NoCache
+    w = core.World(h["ftable"])
+    b = Builder(w, copy.deepcopy(h["env"]))
+    objs = [b.build(e) for e in h["exprs"]]
+    ds = b.dataset(1)
+    cur = copy.deepcopy(h["env"])
+    out = []
+
+    def record(si, e, obj, o, env):
+        try:
+            raw = core.force(obj.evaluate(core.py_json(o)))
+            got, line = ("ok", canon(raw)), "ok:" + core.show(raw)
+        except RecursionError:
+            got, line = ("fail", "fuel"), "err:fuel:F"
+        except Exception as exc:  # noqa
+            c, ee = core.classify(exc)
+            got, line = ("fail", c), f"err:{c}:{'T' if ee else 'F'}"
+        scn = dict(ftable=h["ftable"], env=copy.deepcopy(env), exprs=[e], ops=[("evaluate", 0, False, False, o)])
+        out.append((si, scn, got, core.canon_names(line + "|")))
+    for si, st in enumerate(h["steps"]):
+        k = st[0]
+        if k == "eval":
+            record(si, h["exprs"][st[1]], objs[st[1]], st[2], cur)
+        elif k == "touch":
+            try:
+                getattr(objs[st[2]], st[1])(core.py_json(st[3]))
+            except Exception:  # noqa
+                pass
+        elif k == "set_dispatch":
+            ds.set_dispatch(b.build(st[1]))
+            cur[1]["dispatch"] = st[1]
+        elif k == "register":
+            ds.register(core.py_value(("j", st[1])), b.build(st[2]))
+            cur[1]["overloads"] = list(cur[1].get("overloads", [])) + [(("j", st[1]), st[2])]
+        elif k == "overload":
+            aliases = [core.py_value(("j", a)) for a in st[1]]
+            if cur[1].get("dispatch") is not None:       # the decorator requires a dispatch
+                ds.overload(aliases if len(aliases) > 1 else aliases[0])(b.dataset(st[2]))
+                cur[1]["overloads"] = list(cur[1].get("overloads", [])) + [(("j", a), ("dataset", st[2])) for a in st[1]]
+        elif k == "set_cache":
+            ds.set_cache(NoCache())                       # caches are outside this property's profile (C01)
+        elif k in ("add_effects", "add_effect"):
+            getattr(ds, k)(lambda value: None)            # an effect does not change the value
+        elif k == "disable_effects":
+            ds.disable_effects()
+        elif k == "enable_effects":
+            ds.enable_effects()
+        elif k == "derive":
+            env = copy.deepcopy(cur)
+            env[99] = dict(derived=1, how=st[1], preset=st[2])
+            obj = getattr(ds, st[1])(core.py_json(st[2]))
+            record(si, ("dataset", 99), obj, st[3], env)
+        else:
+            raise AssertionError(st)
+    return out
+
+
+def history_oracle(h, stats=None):
+    """(first violation or None, the per-evaluation records)"""
+    recs = run_history(h)
+    for si, scn, got, line in recs:
+        v = oracle_case(scn, 0, scn["ops"][0][4], stats, got=got)
+        if v is not None:
+            return dict(v, desc=v["desc"] + f" [a dataset with a history: at step {si} of the history, after "
+                                            f"{[st[0] for st in h['steps'][:si] if st[0] not in ('eval',)]}]",
+                        history_repr=repr(dict(h, steps=h["steps"][:si + 1])), failing_step=si), recs
+    return None, recs
+
+
+# =============================================================================================
 # model vs implementation (both Coq computations) and the run
 # =============================================================================================
 
@@ -888,8 +1210,11 @@ def coq_case(scn):
 PACK_CHARS = 14000
 
 
-def three_way(ctx, scns, name):
-    impls = [core.run_impl(s) for s in scns]
+def three_way(ctx, scns, name, given=None):
+    """`given`: id(scenario) -> implementation lines obtained elsewhere (an object with a history: the
+    scenario is the definition as it stands at that point); their results are compared, not their events"""
+    given = given or {}
+    impls = [given[id(s)] if id(s) in given else core.run_impl(s) for s in scns]
     # one generated file per pack of scenarios; packs are cut by the size of the expected output
     # (a vm_compute result string of more than ~30 KB overflows coqc's stack when read back)
     packs, cur, size = [], [], 0
@@ -931,7 +1256,7 @@ def three_way(ctx, scns, name):
                 stats["by_cause"][cz] = stats["by_cause"].get(cz, 0) + 1
             if "unmod" in b or "unmod" in c:
                 stats["unmodelled"] += 1
-            if late_lazy(s["exprs"][op[1]]):
+            if late_lazy(s["exprs"][op[1]]) or id(s) in given:
                 stats["results_only_ops"] += 1
                 ok_eval = cp.same(res + "|", cp.split(b)[0] + "|", False)
             else:
@@ -978,20 +1303,38 @@ def run(ctx):
     extra_scns = extra_scns + [sibling_scn(ctx, values=True) for _ in range(12 if q else 120)]
     groups = [("corpus", corpus), ("enumerated", enum_scns), ("shapes", shape_scns), ("random", rand_scns), ("lazy", lazy_scns),
               ("map_sibling_keys", sib_scns)]
-    modelled = [s for _, g in groups for s in g]
+    # datasets with a history (drawn after every older stream): every evaluation is one scenario = the definition
+    # as it stands at that point; the implementation's line comes from the long-lived object
+    histories = [gen_history(rng) for _ in range(60 if q else 600)]
+    violations, hstats, given, hist_scns = [], {}, {}, []
+    import time
+    t_h = time.time()
+    for h in histories:
+        v, recs = history_oracle(h, hstats)
+        if v is not None:
+            violations.append(dict(v, group="dataset_history"))
+        for si, scn, got, line in recs:
+            given[id(scn)] = [line]
+            hist_scns.append(scn)
+    lib.log(f"[C05] dataset histories: {len(histories)} histories, {len(hist_scns)} evaluations, {time.time() - t_h:.1f}s")
+    groups_h = groups + [("dataset_history", hist_scns)]
+    modelled = [s for _, g in groups_h for s in g]
     import time
     t0 = time.time()
-    impls, mism, cstats = three_way(ctx, modelled, "Cases_C05")
+    impls, mism, cstats = three_way(ctx, modelled, "Cases_C05", given=given)
     lib.log(f"[C05] model/sem vs implementation: {cstats['ops']} ops, {len(mism)} mismatches, {time.time() - t0:.1f}s")
     t0 = time.time()
     disagreeing = cstats.pop("disagreeing")
 
-    violations, ostats, distinct, kinds = [], {}, set(), {}
+    ostats, distinct, kinds = {"dataset_history": hstats}, set(), {}
     samples = []
+    alt_st = {}
+    n_alt, t_alt = 0, 0.0
     for gname, g in groups + [("extras", extra_scns)]:
         st = {}
-        for s in g:
-            for (_, i, _, _, o) in s["ops"]:
+        for si_, s in enumerate(g):
+            applies = {}
+            for oi_, (_, i, _, _, o) in enumerate(s["ops"]):
                 v = oracle_case(s, i, o, st, model_agrees=id(s) not in disagreeing)
                 e = s["exprs"][i]
                 if e[0] not in ("value", "option", "dataset"):
@@ -999,13 +1342,30 @@ def run(ctx):
                     kinds[e[0]] = kinds.get(e[0], 0) + 1
                 if v is not None:
                     violations.append(dict(v, group=gname))
+                # the same tree through another public spelling (one spelling per case, rotating; the large enumerated group:
+                # every third case in the quick tier)
+                if gname in ("lazy", "extras") or (q and gname == "enumerated" and (si_ + oi_) % 3):
+                    continue
+                spell = 1 + (si_ + i + oi_) % 3
+                if (i, spell) not in applies:
+                    applies[(i, spell)] = alt_applies(s, e, spell)
+                if applies[(i, spell)]:
+                    n_alt += 1
+                    t_a = time.time()
+                    v = alt_case(s, i, o, spell, alt_st, model_agrees=id(s) not in disagreeing)
+                    t_alt += time.time() - t_a
+                    if v is not None:
+                        violations.append(dict(v, group=gname + "/other spelling"))
         ostats[gname] = st
+    ostats["other_spellings"] = alt_st
     for s in (enum_scns[len(enum_scns) // 2], shape_scns[0], rand_scns[0]):
         i, o = s["ops"][0][1], s["ops"][0][4]
         samples.append(dict(expr=repr(s["exprs"][i])[:300], options=repr(o), labrea=repr(impl_outcome(s, s["exprs"][i], o))[:200],
                             eager=repr(ref_outcome(s, s["exprs"][i], o))[:200]))
     checked = sum(st.get("checked", 0) for st in ostats.values())
-    lib.log(f"[C05] eager reference vs implementation: {checked} cases, {len(violations)} failures, {time.time() - t0:.1f}s")
+    cstats["dataset_history_ops_results_only"] = len(hist_scns)
+    lib.log(f"[C05] eager reference vs implementation: {checked} cases, {len(violations)} failures, {time.time() - t0:.1f}s "
+            f"(of which other spellings: {n_alt} cases, {t_alt:.1f}s)")
     return {
         "evaluations": cstats["ops"] + checked,
         "distinct_nontrivial": len(distinct),
@@ -1024,14 +1384,25 @@ def run(ctx):
                 "expression (call / collections / switch / case / coalesce / dataset with parameters, overloads, pre-set tables / "
                 "WithOptions / a nested Map) reading every mapped key, x 5 caller dictionaries (empty, every table present with other "
                 "values, tables present in part, empty or scalar parents, random); extras: set collection and Map.values (oracle "
-                "only; the sibling-key family through Map.values too)",
+                "only; the sibling-key family through Map.values too); "
+                "dataset_history: long-lived object graphs (a dataset, plain / abstract / overloaded / with callback or pre-set options, used "
+                "directly, as a switch branch, as another dataset's argument, as a coalesce member, under a Map) first evaluated / validated / "
+                "asked for keys / explained, then 2-5 public mutators (set_dispatch, register, overload([aliases]), set_cache, add_effects, "
+                "add_effect, disable_effects, enable_effects) and derivations (with_options / with_default_options, evaluated at once) "
+                "interleaved with evaluations: each evaluation is compared with the eager computation (and the Coq model and sem) of the "
+                "definition as it stands at that evaluation; other spellings: the trees of the corpus / enumerated / shapes / random / "
+                "sibling groups built through the other public spellings of each combinator (case-when: default first, default in the "
+                "middle, CaseWhen(...); the shared bases that were extended are evaluated too; switch: Switch(...), Overloaded(...), "
+                "Overloaded + register; coalesce(); >>; p += step, right-nested +; WithDefaultOptions; datasets: set_dispatch / register / "
+                "overload after the definition, in both orders)",
         "samples": samples,
         "traces_validated_against_impl": cstats["ops"],
         "correspondence_mismatches": mism[:5],
         "violations": violations,
         "known": known_witnesses(),
         "distribution": dict(correspondence=cstats, oracle=ostats, enumerated_trees_by_size=by_size, root_kinds=kinds,
-                             scenarios={n: len(g) for n, g in groups + [("extras", extra_scns)]}),
+                             scenarios={n: len(g) for n, g in groups + [("extras", extra_scns)]},
+                             dataset_histories=len(histories), dataset_history_evaluations=len(hist_scns), other_spelling_cases=n_alt),
         "exhaustive": True,
         "assumptions": ["user functions are deterministic and consume (force) their arguments",
                         "dispatch values are hashable; dictionary/switch keys pairwise distinct under ==; no templated option values "
@@ -1056,6 +1427,16 @@ def known_witnesses():
 
 
 def replay(ctx, payload):
+    if "history_repr" in payload:
+        h = cp.load_scn(payload["history_repr"])
+        v, recs = history_oracle(h)
+        given = {id(scn): [line] for _, scn, _, line in recs}
+        _, mism, _ = three_way(ctx, [scn for _, scn, _, _ in recs], "Replay_C05", given=given)
+        return v is not None or bool(mism), dict(oracle=v, mismatches=mism[:2], steps=[repr(st) for st in h["steps"]])
+    if payload.get("spelling"):
+        scn = cp.load_scn(payload["scenario_repr"])
+        v = alt_case(scn, 0, scn["ops"][0][4], payload["spelling"])
+        return v is not None, dict(oracle=v, spelling=SPELLINGS[payload["spelling"]])
     reprs = [payload["scenario_repr"]] if "scenario_repr" in payload else [
         b["scenario_repr"] for b in payload.get("broken", []) if isinstance(b, dict) and "scenario_repr" in b]
     if not reprs:
